@@ -132,15 +132,16 @@ func (p IP4) CalculateChecksum() uint16 {
 // In network format already
 func Checksum(b []byte) uint16 {
 	csumcv := len(b) - 1 // checksum coverage
-	s := uint32(0)
+	s := uint64(0) // a 32 bit accumulator wraps on inputs longer than 128 KiB
 	for i := 0; i < csumcv; i += 2 {
-		s += uint32(b[i+1])<<8 | uint32(b[i])
+		s += uint64(b[i+1])<<8 | uint64(b[i])
 	}
 	if csumcv&1 == 0 {
-		s += uint32(b[csumcv])
+		s += uint64(b[csumcv])
 	}
-	s = s>>16 + s&0xffff
-	s = s + s>>16
+	for s>>16 != 0 { // end-around carry
+		s = s>>16 + s&0xffff
+	}
 	return ^uint16(s)
 }
 
